@@ -27,8 +27,10 @@ package config
 //@ func (*FlagSet).argParse
 //@   requires FS(f)
 //@   modifies f.args, fields(Flag.ArgValue)
+//@   ensures cells: forall g *Flag {g.ArgValue} :: g.ArgValue == old(g.ArgValue) || (g.ArgValue != nil && fresh(g.ArgValue) && !isStructField(g.ArgValue))
 //@   loop 1
 //@     invariant f.flagMap == old(f.flagMap)
+//@     invariant forall g *Flag {g.ArgValue} :: g.ArgValue == old(g.ArgValue) || (g.ArgValue != nil && fresh(g.ArgValue) && !isStructField(g.ArgValue))
 //@     invariant arr(f.args) == arr(old(f.args)) && off(f.args) >= off(old(f.args)) && off(f.args) + len(f.args) == off(old(f.args)) + len(old(f.args)) && cap(f.args) - len(f.args) == cap(old(f.args)) - len(old(f.args))
 //@     decreases len(f.args)
 //@     step eq.has: forall k int {f.args[0][k]} :: eqAt(f.args[0], k) ==> has(f.flagMap, f.args[0][nd(f.args[0]):k])
@@ -47,4 +49,177 @@ package config
 //@     invariant isFlagTok(outer(f.args[0])) && !isDashDash(outer(f.args[0])) && !badTok(outer(f.args[0])) && name == outer(f.args[0])[nd(outer(f.args[0])):]
 //@     invariant 1 <= i && i <= len(name) && forall j int {outer(f.args[0])[j]} :: nd(outer(f.args[0])) + 1 <= j && j < nd(outer(f.args[0])) + i ==> outer(f.args[0])[j] != '='
 //@     invariant forall g *Flag {g.ArgValue} :: g.ArgValue == outer(g.ArgValue)
+//@     invariant forall g *Flag {g.ArgValue} :: g.ArgValue == old(g.ArgValue) || (g.ArgValue != nil && fresh(g.ArgValue) && !isStructField(g.ArgValue))
 //@     decreases len(name) - i
+
+// ---- C09: Value.Set of the nine supported kinds: empty text means the zero value, otherwise exactly what the
+// standard parser yields for the arguments the documentation implies ----
+
+//@ func (*boolValue).Set
+//@   requires v != nil
+//@   modifies *v
+//@   ensures empty: s == "" ==> err == nil && *v == false
+//@   ensures parsed: s != "" ==> *v == strconv.ParseBool$0(s) && err == strconv.ParseBool$1(s)
+
+//@ func (*intValue).Set
+//@   requires v != nil
+//@   modifies *v
+//@   ensures empty: s == "" ==> err == nil && *v == 0
+//@   ensures parsed: s != "" ==> *v == strconv.ParseInt$0(s, 0, 64) && err == strconv.ParseInt$1(s, 0, 64)
+
+//@ func (*int64Value).Set
+//@   requires v != nil
+//@   modifies *v
+//@   ensures empty: s == "" ==> err == nil && *v == 0
+//@   ensures parsed: s != "" ==> *v == strconv.ParseInt$0(s, 0, 64) && err == strconv.ParseInt$1(s, 0, 64)
+
+//@ func (*uintValue).Set
+//@   requires v != nil
+//@   modifies *v
+//@   ensures empty: s == "" ==> err == nil && *v == 0
+//@   ensures parsed: s != "" ==> *v == strconv.ParseUint$0(s, 0, 64) && err == strconv.ParseUint$1(s, 0, 64)
+
+//@ func (*uint64Value).Set
+//@   requires v != nil
+//@   modifies *v
+//@   ensures empty: s == "" ==> err == nil && *v == 0
+//@   ensures parsed: s != "" ==> *v == strconv.ParseUint$0(s, 0, 64) && err == strconv.ParseUint$1(s, 0, 64)
+
+//@ func (*float64Value).Set
+//@   requires v != nil
+//@   modifies *v
+//@   ensures empty: s == "" ==> err == nil && *v == f64zero()
+//@   ensures parsed: s != "" ==> *v == strconv.ParseFloat$0(s, 64) && err == strconv.ParseFloat$1(s, 64)
+
+//@ func (*durationValue).Set
+//@   requires v != nil
+//@   modifies *v
+//@   ensures empty: s == "" ==> err == nil && *v == 0
+//@   ensures parsed: s != "" ==> *v == time.ParseDuration$0(s) && err == time.ParseDuration$1(s)
+
+//@ func (*stringValue).Set
+//@   requires v != nil
+//@   modifies *v
+//@   ensures result == nil && *v == s
+
+//@ func (*bytesValue).Set
+//@   requires v != nil
+//@   modifies *v
+//@   ensures empty: s == "" ==> err == nil && *v == nil
+//@   ensures parsed: s != "" ==> *v == base64.StdEncoding.DecodeString$0(s) && err == base64.StdEncoding.DecodeString$1(s)
+
+//@ func (*boolValue).IsBoolFlag
+//@   modifies nothing
+//@   ensures result
+
+//@ func (*stringValue).String
+//@   requires v != nil
+//@   modifies nothing
+//@   ensures result == *v
+
+// ---- C09: priority cli > env > JSON > default (Parse) ----
+// Ghost bookkeeping on Value objects: the text of the last Set call and the number of Set calls. Each repo
+// implementation of Set is verified above to store exactly parse(text) (zero for ""), and to touch only its own cell.
+//@ ghost field any.lastSet string
+//@ ghost field any.setCount int
+
+//@ iface Value.Set(v, s)
+//@   requires v != nil
+//@   modifies cell(ifaceRef(v)), v.lastSet, v.setCount
+//@   ensures v.lastSet == s && v.setCount == old(v.setCount) + 1
+
+// well-formed FlagSet as far as Parse needs it (established by NewFlagSet: reflection, outside the subset)
+//@ pure FS2(f *FlagSet) bool = FS(f) && (forall k string {has(f.flagMap, k)} :: has(f.flagMap, k) ==> f.flagMap[k].Value != nil)
+//@   | && (forall i int {f.flagList[i]} :: 0 <= i && i < len(f.flagList) ==> f.flagList[i] != nil && f.flagList[i].Value != nil)
+//@   | && (forall i int, j int {f.flagList[i], f.flagList[j]} :: 0 <= i && i < j && j < len(f.flagList) ==> ifaceRef(f.flagList[i].Value) != ifaceRef(f.flagList[j].Value))
+
+//@ uf envHas(string) bool
+//@ uf envVal(string) string
+//@ axiom env_lookup: forall k string {os.LookupEnv$0(k)} :: os.LookupEnv$0(k) == envVal(k) && os.LookupEnv$1(k) == envHas(k)
+
+// envParse: EnvValue of a flag becomes the environment's text iff the flag has an Env name and the variable is set
+//@ func (*FlagSet).envParse
+//@   requires FS2(f)
+//@   modifies fields(Flag.EnvValue)
+//@   ensures result == nil
+//@   ensures set: forall i int {f.flagList[i]} :: 0 <= i && i < len(f.flagList) && f.flagList[i].Env != "" && envHas(f.flagList[i].Env) ==> f.flagList[i].EnvValue != nil && *f.flagList[i].EnvValue == envVal(f.flagList[i].Env)
+//@   ensures keep: forall g *Flag {g.EnvValue} :: g.Env == "" || !envHas(g.Env) ==> g.EnvValue == old(g.EnvValue)
+//@   ensures cells: forall g *Flag {g.EnvValue} :: g.EnvValue == old(g.EnvValue) || (g.EnvValue != nil && fresh(g.EnvValue) && !isStructField(g.EnvValue))
+//@   loop 1
+//@     invariant -1 <= rangeindex && rangeindex < len(f.flagList)
+//@     invariant forall i int {f.flagList[i]} :: 0 <= i && i <= rangeindex && f.flagList[i].Env != "" && envHas(f.flagList[i].Env) ==> f.flagList[i].EnvValue != nil && *f.flagList[i].EnvValue == envVal(f.flagList[i].Env)
+//@     invariant forall g *Flag {g.EnvValue} :: g.Env == "" || !envHas(g.Env) ==> g.EnvValue == old(g.EnvValue)
+//@     invariant forall g *Flag {g.EnvValue} :: g.EnvValue == old(g.EnvValue) || (g.EnvValue != nil && fresh(g.EnvValue) && !isStructField(g.EnvValue) && *g.EnvValue == envVal(g.Env))
+//@     decreases len(f.flagList) - rangeindex
+
+// value cells are not FlagSet internals: the cell behind a flag's Value is neither a field of a Flag, nor the
+// FlagSet's list/map/args fields, nor a list element, nor a text cell of ArgValue/EnvValue
+//@ pure notInternal(a ref) bool = !isFieldOf(a, Flag.Name) && !isFieldOf(a, Flag.Env) && !isFieldOf(a, Flag.Usage) && !isFieldOf(a, Flag.Value) && !isFieldOf(a, Flag.DefValue) && !isFieldOf(a, Flag.ArgValue) && !isFieldOf(a, Flag.EnvValue)
+//@   | && !isFieldOf(a, FlagSet.args) && !isFieldOf(a, FlagSet.flagList) && !isFieldOf(a, FlagSet.flagMap) && !isFieldOf(a, FlagSet.parsed) && !isFieldOf(a, FlagSet.b64ConfigEnv) && !isFieldOf(a, FlagSet.ptr) && !isFieldOf(a, FlagSet.envKeyPrefix) && !isFieldOf(a, FlagSet.maxLength) && !isElem(a)
+//@ pure ownCell(f *FlagSet, a ref) bool = userCell(a) || a == &f.valueConfigPath || a == &f.valueShowUsage
+//@ pure textCellsOK(f *FlagSet) bool = (forall i int {f.flagList[i]} :: 0 <= i && i < len(f.flagList) ==> !isStructField(f.flagList[i].ArgValue) && !isStructField(f.flagList[i].EnvValue)) && (has(f.flagMap, "config") ==> !isStructField(f.flagMap["config"].ArgValue))
+//@ pure FS3(f *FlagSet) bool = FS2(f) && (forall i int {f.flagList[i]} :: 0 <= i && i < len(f.flagList) ==> notInternal(ifaceRef(f.flagList[i].Value)) && ownCell(f, ifaceRef(f.flagList[i].Value)))
+//@   | && (forall i int, g *Flag {f.flagList[i], g.ArgValue} :: 0 <= i && i < len(f.flagList) ==> ifaceRef(f.flagList[i].Value) != g.ArgValue)
+//@   | && (forall i int, g *Flag {f.flagList[i], g.EnvValue} :: 0 <= i && i < len(f.flagList) ==> ifaceRef(f.flagList[i].Value) != g.EnvValue)
+//@   | && (has(f.flagMap, "config") ==> exists i int {f.flagList[i]} :: 0 <= i && i < len(f.flagList) && f.flagList[i] == f.flagMap["config"])
+//@   | && (has(f.flagMap, "config") ==> typeIs(f.flagMap["config"].Value, *stringValue) && ifaceRef(f.flagMap["config"].Value) == &f.valueConfigPath && notInternal(&f.valueConfigPath))
+// JSON layer. jsonApplied counts applications; jsonFromFile / jsonFileArg / jsonB64Arg record where the document
+// came from.
+//@ ghost var jsonApplied int
+//@ ghost var jsonFromFile bool
+//@ ghost var jsonFileArg string
+//@ ghost var jsonB64Arg string
+
+// the cells JSON decoding may write: fields of the user's struct, i.e. struct fields that are not FlagSet internals
+//@ pure userCell(a ref) bool = notInternal(a) && isStructField(a) && !isFieldOf(a, FlagSet.valueConfigPath) && !isFieldOf(a, FlagSet.valueShowUsage)
+
+// JsonUnmarshal writes into the user's struct only (assumed about encoding/json: it writes through pStruct only)
+//@ func JsonUnmarshal
+//@   attr assumed encoding/json
+//@   modifies region(userCell)
+
+//@ func (*FlagSet).parseConfigJson
+//@   requires f != nil
+//@   modifies region(userCell), jsonApplied, jsonFromFile, jsonFileArg, jsonB64Arg
+//@   ensures none: old(f.valueConfigPath) == "" && !envHas(old(f.b64ConfigEnv)) ==> err == nil && jsonApplied == old(jsonApplied)
+//@   ensures file: old(f.valueConfigPath) != "" && err == nil ==> jsonApplied == old(jsonApplied) + 1 && jsonFromFile && jsonFileArg == old(f.valueConfigPath)
+//@   ensures b64: old(f.valueConfigPath) == "" && envHas(old(f.b64ConfigEnv)) && err == nil ==> jsonApplied == old(jsonApplied) + 1 && !jsonFromFile && jsonB64Arg == envVal(old(f.b64ConfigEnv))
+//@   ensures count: jsonApplied == old(jsonApplied) || jsonApplied == old(jsonApplied) + 1
+//@   ghost after call ReadFile set jsonFromFile = true
+//@   ghost after call ReadFile set jsonFileArg = old(f.valueConfigPath)
+//@   ghost after call DecodeString set jsonFromFile = false
+//@   ghost after call DecodeString set jsonB64Arg = str
+//@   ghost after call JsonUnmarshal set jsonApplied = jsonApplied + 1
+
+//@ pure doneFlag(g *Flag, cnt0 int) bool = (g.ArgValue != nil ==> g.Value.lastSet == *g.ArgValue) && (g.ArgValue == nil && g.EnvValue != nil ==> g.Value.lastSet == *g.EnvValue) && (g.ArgValue == nil && g.EnvValue == nil ==> g.Value.setCount == cnt0)
+
+// which JSON document was applied, as a function of the config flag's command-line text and CFG_CONFIG_B64
+//@ pure cfgArgText(f *FlagSet) string = ite(has(f.flagMap, "config") && f.flagMap["config"].ArgValue != nil, *f.flagMap["config"].ArgValue, "")
+//@ pure cfgsrc(f *FlagSet, j0 int) bool = (cfgArgText(f) != "" ==> jsonApplied == j0 + 1 && jsonFromFile && jsonFileArg == cfgArgText(f)) && (cfgArgText(f) == "" && envHas(f.b64ConfigEnv) ==> jsonApplied == j0 + 1 && !jsonFromFile && jsonB64Arg == envVal(f.b64ConfigEnv)) && (cfgArgText(f) == "" && !envHas(f.b64ConfigEnv) ==> jsonApplied == j0)
+
+//@ func (*FlagSet).Parse
+//@   requires FS3(f) && f.valueConfigPath == "" && textCellsOK(f)
+//@   modifies f.parsed, f.args, fields(Flag.ArgValue), fields(Flag.EnvValue), region(userCell), cell(&f.valueConfigPath), cell(&f.valueShowUsage), ghostfields(lastSet), ghostfields(setCount), jsonApplied, jsonFromFile, jsonFileArg, jsonB64Arg
+//@   ensures once: old(f.parsed) ==> err != nil && jsonApplied == old(jsonApplied)
+//@   ensures parsed: f.parsed
+//@   ensures final: err == nil ==> f.flagList == old(f.flagList) && forall i int {f.flagList[i]} :: 0 <= i && i < len(f.flagList) ==> doneFlag(f.flagList[i], old(f.flagList[i].Value.setCount))
+//@   ensures envsrc: err == nil ==> forall i int {f.flagList[i]} :: 0 <= i && i < len(f.flagList) && f.flagList[i].Env != "" && envHas(f.flagList[i].Env) ==> f.flagList[i].EnvValue != nil && *f.flagList[i].EnvValue == envVal(f.flagList[i].Env)
+//@   ensures cfg: err == nil ==> f.flagMap == old(f.flagMap) && f.b64ConfigEnv == old(f.b64ConfigEnv) && cfgsrc(f, old(jsonApplied))
+//@   ghost before call parseConfigJson assert order: forall i int {f.flagList[i]} :: 0 <= i && i < len(f.flagList) ==> f.flagList[i].Value.setCount == old(f.flagList[i].Value.setCount) || (has(f.flagMap, "config") && ifaceRef(f.flagList[i].Value) == ifaceRef(f.flagMap["config"].Value) && f.flagList[i].Value.lastSet == *f.flagMap["config"].ArgValue)
+//@   loop 1
+//@     invariant -1 <= rangeindex && rangeindex < len(f.flagList) && err == nil && f.parsed && !old(f.parsed) && f.flagList == old(f.flagList) && f.flagMap == old(f.flagMap) && f.b64ConfigEnv == old(f.b64ConfigEnv)
+//@     invariant forall i int {f.flagList[i]} :: 0 <= i && i <= rangeindex ==> doneFlag(f.flagList[i], old(f.flagList[i].Value.setCount))
+//@     invariant forall i int {f.flagList[i]} :: rangeindex < i && i < len(f.flagList) ==> f.flagList[i].Value.setCount == old(f.flagList[i].Value.setCount) || (f.flagList[i].ArgValue != nil && f.flagList[i].Value.lastSet == *f.flagList[i].ArgValue)
+//@     invariant forall i int {f.flagList[i]} :: 0 <= i && i < len(f.flagList) && f.flagList[i].Env != "" && envHas(f.flagList[i].Env) ==> f.flagList[i].EnvValue != nil && *f.flagList[i].EnvValue == envVal(f.flagList[i].Env)
+//@     invariant cfgsrc(f, old(jsonApplied)) && textCellsOK(f)
+//@     decreases len(f.flagList) - rangeindex
+
+//@ func (*FlagSet).Args
+//@   requires f != nil
+//@   modifies nothing
+//@   ensures result == f.args
+
+//@ func (*FlagSet).ShowUsage
+//@   requires f != nil
+//@   modifies nothing
+//@   ensures result == f.valueShowUsage
